@@ -516,6 +516,42 @@ def aimed_lines(chk, infos, quick, c20, byname):
         for v in (vs if not quick else rng.sample(vs, min(len(vs), 5))):
             for sh in ('r', 'm', 'i'):
                 lines.append(G.gen_case(info, rng, cid('c'), vals=[v], shapes=[sh], c20=c20))
+    if not c20:
+        # the address registers of memory operands tied to the hard registers the x86-64 encoder treats specially (r12: SIB
+        # byte needed, r13: no mod=00 form, with and without index / displacement) and to other callee-saved ones
+        hrs = ['r12', 'r13', 'rbx', 'r14', 'r15']
+        for info in tests:
+            for _ in range(2 if quick else 12):
+                nsrc = len(info.args)
+                shapes = [rng.choice('rm') for _ in range(nsrc)]
+                dst = None
+                if info.res != '-' and rng.random() < 0.4:
+                    tys = G.MEM_INT_TYPES if info.res == 'i' else G.KIND_MEM[info.res]
+                    dst = G.mem_desc(rng, rng.choice(tys), ['b', 'bd', 'bi', 'bid'])
+                elif 'm' not in shapes:
+                    shapes[rng.randrange(nsrc)] = 'm'
+                vals = [rng.choice(G.grid_for(k, rng, info.name, i)) if rng.random() < 0.5 else G.rand_val(k, rng, info.name, i)
+                        for i, k in enumerate(info.args)]
+                ops = []
+                for k, sh, v in zip(info.args, shapes, vals):
+                    if sh == 'm':
+                        ty = rng.choice(G.MEM_INT_TYPES if k == 'i' else G.KIND_MEM[k])
+                        form = rng.choice(['b', 'b', 'bd', 'bi', 'bid'])
+                        desc = G.mem_desc(rng, ty, [form])
+                        if form in ('bd', 'bid') and rng.random() < 0.5:     # small displacements: the disp8 forms
+                            f = desc.split(',')
+                            f[3] = str(rng.choice([1, -1, 8, 127, -128]))
+                            desc = ','.join(f)
+                        ops.append(desc + ':%x' % (v & ((1 << (8 * G.TYPE_SIZE[ty])) - 1)))
+                    else:
+                        ops.append('r:%x' % v)
+                perm = rng.sample(hrs, len(hrs))
+                if rng.random() < 0.6:
+                    first = rng.choice(['r13', 'r12'])
+                    perm = [first] + [h for h in perm if h != first]
+                line = G.gen_case(info, rng, cid('H'), vals=vals, shapes=shapes, dst=dst if dst is not None else ('r' if info.res != '-' else None),
+                                  optexts=ops, press=0)
+                lines.append(line + ' hr=' + ','.join(perm[:6]))
     lines += G.special_lines(rng, quick, c20)
     return lines
 
